@@ -42,6 +42,9 @@ RULE = (
     ">= 1 event strictly in the future, or emitted after simulated time had passed since the first delivery, or a "
     "library generator was resumed after a positive delay, or >= 1 process parked on a SimFuture (blocked waiter); "
     "and the clock visited >= 2 instants. Distinct by hash of the case. "
+    "Mechanism key: component = class of the responsible library code (creating frame / polling generator / "
+    "self re-arming entity), oracle, shape = normalised event type or spin:<generator> / rearm:<event type> "
+    "(@<policy class> for a RateLimitedEntity, whose waits are its policy's). "
     "Layer 2 (thorough): the repository test suite under the same probes, emitters/creators defined in test "
     "files ignored; only the emission and discard probes decide there (finiteness of a test's workload is unknown)."
 )
